@@ -326,3 +326,8 @@ SUBS = [
     Sub("rpe_reuse", sub_rpe_reuse, st.fixed_dictionaries({"A": st_random.filter(lambda c: c["unit"] in ("m", "r", "d", "f") and not (
         c["unit"] in ("r", "d") and c["delta"] > (math.pi if c["unit"] == "r" else 180.0))), "PB": st_P}), 400, 15000, nontrivial=lambda c: True),
 ]
+
+
+# ---- the same selection observed through evo_rpe (delta / tolerance / unit options -> id_pairs_from_delta) -------
+from vf.checks import c02 as _c02
+SUBS.append(Sub("cli_pairs", _c02.sub_cli, _c02.st_cli, 400, 10000, nontrivial=lambda c: True, shards_quick=4))
